@@ -65,6 +65,17 @@ def case_reverse(inp):
         return False, ('reverse twice is the identity', v), view(rr), None
     if safe_mass(r) != safe_mass(a):
         return False, ('mass unchanged', safe_mass(a)), safe_mass(r), None
+    # the string-level wrapper: the reversed text denotes the reversed peptide, and reversing the text twice gives the text back
+    try:
+        t1 = r.serialize()
+        back = view(parse(t1))
+    except Exception as e:   # noqa
+        return False, ('the reversed peptide has a text that parses', exp), repr(e)[:200], None
+    if back != exp:
+        return False, ('the text of the reversed peptide denotes it', exp), (t1, back), None
+    t2 = parse(t1).reverse(swap_terms=swap).serialize()
+    if t2 != before:
+        return False, ('reversing the text twice gives the text back', before), t2, None
     return True, None, None, ('rev', n, bool(v['intervals']), swap, len([1 for _, m in v['res'] if m]))
 
 
